@@ -351,6 +351,22 @@ func (vc *FnVC) setupEntry() {
 		t := Term{S: n, Sort: srt, T: p.Type()}
 		vc.vals[p] = t
 		vc.addRange(t)
+		if _, isPtr := p.Type().Underlying().(*types.Pointer); isPtr {
+			nilable := false
+			if vc.fc != nil {
+				for _, nn := range vc.fc.Nilable {
+					if nn == p.Name() {
+						nilable = true
+					}
+				}
+			}
+			if !nilable {
+				vc.fact(fmt.Sprintf("(> %s 0)", n))
+				vc.assume("pointer parameters and receivers are non-nil unless declared nilable (nil dereference is not an obligation)")
+			}
+			vc.decl("allocated0", "(declare-fun allocated0 (Int) Bool)")
+			vc.fact(fmt.Sprintf("(=> (> %s 0) (allocated0 %s))", n, n))
+		}
 		name := p.Name()
 		if vc.fc != nil && i < len(vc.fc.Params) && vc.fc.Params[i] != "_" {
 			if vc.fc.Params[i] != name {
@@ -446,50 +462,11 @@ func (vc *FnVC) Translate() {
 }
 
 func (vc *FnVC) collectInputs() {
-	add := func(name, term, sort string) {
-		vc.inputs = append(vc.inputs, ModelVar{name, term, sort})
-	}
-	entry := func(comp, sort string) string { return vc.entryComp(comp, sort) }
 	for _, p := range vc.fn.Params {
-		t := vc.vals[p]
-		name := p.Name()
-		switch u := p.Type().Underlying().(type) {
-		case *types.Pointer:
-			el := u.Elem()
-			add(name, t.S, "Int")
-			if st := structOf(el); st != nil {
-				for i := 0; i < st.NumFields(); i++ {
-					ft := st.Field(i).Type()
-					if isObjectType(ft) {
-						if isUint256(ft) {
-							add("(*"+name+")."+st.Field(i).Name(), vc.loadObject(vc.fldRef(el, i, t.S), ft, entry), "Int")
-						}
-						continue
-					}
-					c, s := vc.fieldComp(el, i)
-					add("(*"+name+")."+st.Field(i).Name(), fmt.Sprintf("(select %s %s)", entry(c, s), t.S), vc.sortOf(ft))
-				}
-			} else if isUint256(el) || isBigInt(el) {
-				add("*"+name, vc.loadObject(t.S, el, entry), "Int")
-			}
-		case *types.Struct:
-			for i := 0; i < u.NumFields(); i++ {
-				add(name+"."+u.Field(i).Name(), fmt.Sprintf("(%s %s)", vc.accName(p.Type(), i), t.S), vc.sortOf(u.Field(i).Type()))
-			}
-		case *types.Slice:
-			add("len("+name+")", fmt.Sprintf("(s.len %s)", t.S), "Int")
-			add("cap("+name+")", fmt.Sprintf("(s.cap %s)", t.S), "Int")
-			add("off("+name+")", fmt.Sprintf("(s.off %s)", t.S), "Int")
-			if !isObjectType(u.Elem()) {
-				c, s := vc.elemComp(u.Elem())
-				add("elems("+name+")", fmt.Sprintf("(select %s (s.arr %s))", entry(c, s), t.S), "(Array Int "+vc.sortOf(u.Elem())+")")
-			}
-		default:
-			add(name, t.S, t.Sort)
-		}
+		vc.addInputs(p.Name(), vc.vals[p].S, p.Type(), 0)
 	}
 	for n, g := range vc.ghostTerms {
-		add("ghost "+n, g.S, g.Sort)
+		vc.inputs = append(vc.inputs, ModelVar{"ghost " + n, g.S, g.Sort})
 	}
 }
 
